@@ -77,6 +77,34 @@ def rules(ck, P):
         bad = [nm for nm in names if nm not in NARROWING]
         ck.check(not bad, "R-FILTER", short + "|narrowing-only", "coverage is only narrowed at build time (%s)" % (names or "untouched"),
                  "coverage is modified by non-narrowing calls %s" % bad, ir.loc(bld))
+        # the geographic bbox that narrows the coverage is the argument as written: it reaches intersect_geo_bbox (whose validation
+        # reports reversed / out-of-range / NaN boxes) without being clamped, intersected or otherwise "sanitised" on the way
+        for n in pyr_calls:
+            if n["name"] != "intersect_geo_bbox":
+                continue
+            e = ir.strip(n["a"][0])
+            steps = []
+            for _ in range(8):
+                while e is not None and e.get("k") in ("ref", "un"):
+                    e = ir.strip(e["e"])
+                if e is None:
+                    break
+                if e.get("k") == "path" and e.get("r") == "local" and e["hid"] in lets:
+                    e = ir.strip(lets[e["hid"]])
+                    continue
+                if e.get("k") == "mcall":
+                    steps.append(e["name"])
+                    e = ir.strip(e["recv"])
+                    continue
+                if e.get("k") == "call":
+                    steps.append((e.get("q") or "?").rsplit("::", 1)[-1])
+                    e = ir.strip(e["a"][0]) if e.get("a") else None
+                    continue
+                break
+            from_arg = e is not None and e.get("k") == "field" and e.get("name") == "bbox"
+            extra = [st_ for st_ in steps if st_ not in ("from", "try_from", "into", "try_into", "clone", "to_owned")]
+            ck.check(from_arg and not extra, "R-BUILD-ERR", short + "|bbox-unsanitised", "the bbox argument reaches intersect_geo_bbox as written (GeoBBox::from(&args.bbox)), so its validation sees invalid values",
+                     "the bbox argument is transformed by %s before it is validated: reversed / out-of-range / NaN values are masked instead of reported when the pipeline is built" % (extra or steps), ir.loc(n))
         # each zoom limit is fed by the same-named argument: set_zoom_min <- args.min, set_zoom_max <- args.max
         for n, parents, _ in ir.walk(bld["body"]):
             if n in pyr_calls and n["name"] in ("set_zoom_min", "set_zoom_max"):
